@@ -82,6 +82,176 @@ ContentFindings(km, out, eout) ==
          : i \in 1..Len(eout)}
 
 -----------------------------------------------------------------------------
+(***************************************************************************)
+(* C08 / C09 / C10: re-export is the identity on the bytes the item came   *)
+(* from.  The harness logs the export at three grains (whole packet, each  *)
+(* set alone, each value), so a difference is attributed, never guessed.   *)
+(***************************************************************************)
+FixedFieldAt(ver, off) ==       \* name of the field that owns byte `off` (0-based) of a V5/V7 packet
+  IF off < 2 THEN "version"
+  ELSE IF off < 24 THEN
+    LET l == FixedHdrLayout(ver)  o == FixedHdrOffs(ver)
+        i == CHOOSE q \in 1..Len(l) : o[q] <= off - 2 /\ off - 2 < o[q] + l[q][2] IN l[i][1]
+  ELSE
+    LET l == FixedRecLayout(ver)  o == FixedRecOffs(ver)  w == (off - 24) % FixedRecSize(ver)
+        i == CHOOSE q \in 1..Len(l) : o[q] <= w /\ w < o[q] + l[q][2] IN l[i][1]
+
+FirstDiffOff(a, b) ==        \* 0-based offset of the first difference of two byte strings, -1 if a prefix
+  LET n == Min2(Len(a), Len(b))  i == FirstIdx(n, LAMBDA q : a[q] # b[q]) IN i - 1
+
+FixedExportFindings(buf, oi, ei) ==
+  LET want == SubSeq(buf, ei.s, ei.e)  ver == IF ei.k = "v5" THEN 5 ELSE 7 IN
+  IF oi.exp.st = "off" THEN {}
+  ELSE IF oi.exp.st # "ok" THEN {<<"C08", ei.k, "export", oi.exp.st>>}
+  ELSE IF oi.exp.bytes = want THEN {}
+  ELSE LET d == FirstDiffOff(oi.exp.bytes, want) IN
+       IF d < 0 THEN {<<"C08", ei.k, "export", "length">>}
+       ELSE {<<"C08", ei.k, "export", FixedFieldAt(ver, d)>>}
+
+Low4(e8) == IF Len(e8) = 8 THEN SubSeq(e8, 5, 8) ELSE <<>>
+RawOf(content, pfx) == IF pfx = 0 THEN content ELSE IF pfx = 1 THEN <<Len(content)>> \o content
+                       ELSE <<255>> \o B16(Len(content)) \o content
+
+\* why does the re-export of value v differ from the bytes it was read from?
+ValueExportSig(kind, content, pfx, v) ==
+  IF v.xok = "panic" THEN "panic"
+  ELSE IF pfx > 0 /\ v.xok = "ok" /\ v.x = content THEN "varlen-prefix"
+  ELSE IF kind \in Durations THEN
+    (IF v.xok = "err" THEN "Duration:err"
+     ELSE IF Len(v.x) = 4 /\ v.tag = "Duration" /\ v.x = Low4(v.d[1]) THEN "Duration:secs4" ELSE "Duration:other")
+  ELSE IF kind = "MacAddr" THEN (IF Len(v.x) = 17 THEN "Mac:ascii" ELSE "Mac:other")
+  ELSE IF kind = "String" THEN (IF \E i \in 1..Len(content) : content[i] >= 128 THEN "String:lossy" ELSE "String:other")
+  ELSE IF kind = "SignedDataNumber" THEN
+    (IF Len(content) < 4 /\ v.x = SignExt(content, 4) THEN "Signed:widened" ELSE "Signed:other")
+  ELSE IF kind = "ProtocolType" THEN
+    (IF Len(content) = 1 /\ content[1] >= 145 /\ v.x = <<255>> THEN "Proto:unassigned-as-255" ELSE "Proto:other")
+  ELSE kind \o ":other"
+
+\* lossy value classes present in an observed data set whose template is outside the supported widths
+LossyTags(vals) ==
+  {vals[i].v.tag : i \in {q \in 1..Len(vals) : vals[q].v.tag \in {"Duration", "Mac", "MacBad", "String", "I32", "I24", "Proto"}
+                                                \/ vals[q].v.xok # "ok"}}
+
+SetExportFindings(C, km, proto, buf, os, es, sx) ==
+  LET want == SubSeq(buf, es.s, es.e)
+      loc  == proto \o "." \o es.k
+  IN
+  IF sx.st = "ok" /\ sx.bytes = want THEN {}
+  ELSE IF es.k \in {"tmpl", "otmpl"} THEN
+    (IF sx.st = "ok" /\ Len(sx.bytes) = Len(want)
+        /\ \A i \in 1..Len(want) : sx.bytes[i] = want[i] \/ (want[i] >= 128 /\ sx.bytes[i] = want[i] - 128)
+       THEN {<<C, loc, "export", "ent-bit">>} ELSE {<<C, loc, "export", "spec">>})
+  ELSE IF es.k = "odata" /\ proto = "v9" THEN {<<C, loc, "export", "other">>}
+  ELSE IF ~Checkable(km, proto, es) THEN
+    LET vals == IF proto = "v9" THEN Flatten(os.recs) ELSE MapVals(os.maps)
+        tags == LossyTags(vals) IN
+    IF tags = {} THEN {<<C, loc, "export", "unsupported-width:other">>}
+    ELSE {<<C, loc, "export", "unsupported-width:" \o t>> : t \in tags}
+  ELSE
+    LET fs == es.def.fields
+        F  == Len(fs)
+        ov(r, j) == IF proto = "v9" THEN os.recs[r][j].v ELSE MapVals(os.maps)[(r - 1) * F + j].v
+        px(r, j) == IF proto = "v9" THEN 0 ELSE es.pfx[r][j]
+        bad == {<<r, j>> \in (1..Len(es.recs)) \X (1..F) :
+                   ov(r, j).xok # "ok" \/ ov(r, j).x # RawOf(es.recs[r][j], px(r, j))}
+    IN IF bad # {} THEN
+         {<<C, loc, "export.value", ValueExportSig(KindOf(km, proto, fs[p[2]]), es.recs[p[1]][p[2]], px(p[1], p[2]), ov(p[1], p[2]))>> : p \in bad}
+       ELSE IF sx.st = "ok" /\ es.pad # <<>> /\ sx.bytes \o es.pad = want THEN {<<C, loc, "export", "pad">>}
+       ELSE {<<C, loc, "export", "other">>}
+
+VarExportFindings(km, buf, oi, ei) ==
+  LET C == IF ei.k = "v9" THEN "C09" ELSE "C10"
+      want == SubSeq(buf, ei.s, ei.e) IN
+  IF oi.exp.st = "off" THEN {}
+  ELSE IF oi.exp.st = "panic" THEN {<<"C01", "post", "export", "panic">>}
+  ELSE IF oi.exp.st = "ok" /\ oi.exp.bytes = want THEN {}
+  ELSE LET per == UNION {SetExportFindings(C, km, ei.k, buf, oi.sets[s], ei.sets[s], oi.sexp[s]) : s \in 1..Len(ei.sets)} IN
+       IF per # {} THEN per
+       ELSE IF ei.k = "ipfix" /\ (ei.dropped # <<>> \/ ei.left > 0) THEN {<<C, "msg", "export", "sets-omitted">>}
+       ELSE IF oi.exp.st # "ok" THEN {<<C, "msg", "export", oi.exp.st>>}
+       ELSE {<<C, "msg", "export", "header">>}
+
+ExportFindings(km, buf, out, eout) ==
+  UNION {LET oi == out[i]  ei == eout[i] IN
+         CASE ei.k \in {"v5", "v7"} -> FixedExportFindings(buf, oi, ei)
+           [] ei.k \in {"v9", "ipfix"} -> VarExportFindings(km, buf, oi, ei)
+           [] OTHER -> {}
+         : i \in 1..Len(eout)}
+
+-----------------------------------------------------------------------------
+(***************************************************************************)
+(* C13: the common-flow view is a projection of what was decoded.          *)
+(***************************************************************************)
+Absent == <<>>
+FieldVal(fs, rec, ts) ==      \* value of the first field whose type number is ts[1], else ts[2], ...; Absent if none
+  LET hit(t) == {j \in 1..Len(fs) : fs[j].t = t /\ ~fs[j].ent}
+      t == FirstIdx(Len(ts), LAMBDA q : hit(ts[q]) # {}) IN
+  IF t = 0 THEN Absent ELSE rec[CHOOSE j \in hit(ts[t]) : \A k \in hit(ts[t]) : j <= k]
+HasField(fs, ts) == \E j \in 1..Len(fs) : fs[j].t \in ToSet(ts) /\ ~fs[j].ent
+
+\* aspects of a common flow: name, field numbers (in lookup order), natural widths
+Aspects == << <<"src", <<8, 27>>, {4, 16}>>, <<"dst", <<12, 28>>, {4, 16}>>, <<"sp", <<7>>, {2}>>, <<"dp", <<11>>, {2}>>,
+              <<"proto", <<4>>, {1}>>, <<"first", <<22>>, {4}>>, <<"last", <<21>>, {4}>>,
+              <<"smac", <<56>>, {6}>>, <<"dmac", <<80>>, {6}>> >>
+
+\* Every occurrence of one of the aspect's field numbers in the record is a "corresponding decoded
+\* field" (a template may repeat a field, or carry both the IPv4 and the IPv6 variant).
+RecordFlowFindings(proto, fs, rec, fl) ==
+  UNION {LET a == Aspects[i]
+             cands == {rec[j] : j \in {q \in 1..Len(fs) : fs[q].t \in ToSet(a[2]) /\ ~fs[q].ent}}
+             nat == {v \in cands : Len(v) \in a[3]} IN
+         IF cands = {} THEN (IF fl[a[1]] # Absent THEN {<<"C13", "common", a[1], "present-but-absent:" \o proto>>} ELSE {})
+         ELSE IF nat # cands THEN {}      \* some occurrence has a reduced/odd width: no verdict on this aspect
+         ELSE IF fl[a[1]] = Absent THEN {<<"C13", "common", a[1], "absent-but-present:" \o proto>>}
+         ELSE IF fl[a[1]] \notin nat THEN
+           (IF a[1] = "proto" /\ fl.proto = <<255>> /\ \E v \in nat : v[1] >= 145
+              THEN {<<"C13", "common", "proto", "unassigned-as-255:" \o proto>>}
+              ELSE {<<"C13", "common", a[1], "differs:" \o proto>>})
+         ELSE IF a[1] = "proto" /\ ~ProtoNameOk(fl.proto[1], fl.pname) THEN {<<"C13", "common", "pname", ToString(fl.proto[1])>>}
+         ELSE {}
+         : i \in 1..Len(Aspects)}
+
+DataRecords(km, ei) ==      \* <<fields, record>> for every record of every checkable data set, in order
+  Flatten([s \in 1..Len(ei.sets) |->
+             IF ei.sets[s].k = "data" /\ Checkable(km, ei.k, ei.sets[s])
+               THEN [r \in 1..Len(ei.sets[s].recs) |-> <<ei.sets[s].def.fields, ei.sets[s].recs[r]>>]
+               ELSE <<>>])
+AllDataCheckable(km, ei) == \A s \in 1..Len(ei.sets) : ei.sets[s].k = "data" => Checkable(km, ei.k, ei.sets[s])
+
+CommonFindings(km, oi, ei) ==
+  LET c == oi.common IN
+  IF c.st = "off" THEN {}
+  ELSE IF c.st = "panic" THEN {<<"C01", "post", "common", "panic">>}
+  ELSE IF ei.k = "err" THEN (IF c.st = "err" THEN {} ELSE {<<"C13", "common", "error", "converted">>})
+  ELSE IF c.st # "ok" THEN {<<"C13", "common", "packet", "not-converted">>}
+  ELSE IF ei.k \in {"v5", "v7"} THEN
+    (IF c.version # (IF ei.k = "v5" THEN 5 ELSE 7) THEN {<<"C13", "common", "version", ei.k>>} ELSE {})
+    \cup (IF c.ts \notin {ei.hdr.sys_up_time, ei.hdr.unix_secs} THEN {<<"C13", "common", "ts", ei.k>>} ELSE {})
+    \cup (IF Len(c.flows) # ei.count THEN {<<"C13", "common", "flow-count", ei.k>>}
+         ELSE UNION {LET r == ei.recs[i]  f == c.flows[i] IN
+                (IF f.src # r.src_addr THEN {<<"C13", "common", "src", "differs:" \o ei.k>>} ELSE {})
+                \cup (IF f.dst # r.dst_addr THEN {<<"C13", "common", "dst", "differs:" \o ei.k>>} ELSE {})
+                \cup (IF f.sp # r.src_port THEN {<<"C13", "common", "sp", "differs:" \o ei.k>>} ELSE {})
+                \cup (IF f.dp # r.dst_port THEN {<<"C13", "common", "dp", "differs:" \o ei.k>>} ELSE {})
+                \cup (IF f.proto # r.protocol_number THEN {<<"C13", "common", "proto", "differs:" \o ei.k>>} ELSE {})
+                \cup (IF ~ProtoNameOk(r.protocol_number[1], f.pname) THEN {<<"C13", "common", "pname", ToString(r.protocol_number[1])>>} ELSE {})
+                \cup (IF f.first # r.first THEN {<<"C13", "common", "first", "differs:" \o ei.k>>} ELSE {})
+                \cup (IF f.last # r.last THEN {<<"C13", "common", "last", "differs:" \o ei.k>>} ELSE {})
+                \cup (IF f.smac # Absent \/ f.dmac # Absent THEN {<<"C13", "common", "mac", "present-but-absent:" \o ei.k>>} ELSE {})
+                : i \in 1..ei.count})
+  ELSE
+    (IF c.version # (IF ei.k = "v9" THEN 9 ELSE 10) THEN {<<"C13", "common", "version", ei.k>>} ELSE {})
+    \cup (IF (ei.k = "v9" /\ c.ts \notin {ei.hdr.sys_up_time, ei.hdr.unix_secs}) \/ (ei.k = "ipfix" /\ c.ts # ei.hdr.export_time)
+           THEN {<<"C13", "common", "ts", ei.k>>} ELSE {})
+    \cup (IF ~AllDataCheckable(km, ei) THEN {}
+         ELSE LET recs == DataRecords(km, ei) IN
+              IF Len(c.flows) # Len(recs) THEN {<<"C13", "common", "flow-count", ei.k>>}
+              ELSE UNION {RecordFlowFindings(ei.k, recs[i][1], recs[i][2], c.flows[i]) : i \in 1..Len(recs)})
+
+PostFindings(km, buf, out, eout) ==
+  ExportFindings(km, buf, out, eout) \cup UNION {CommonFindings(km, out[i], eout[i]) : i \in 1..Len(eout)}
+
+-----------------------------------------------------------------------------
 \* No candidate run explains the observed structure: attribute the first disagreement with the
 \* ideal run to the property whose antecedent (decided from the bytes) holds there.
 CutWhy == {"header-cut", "set-header-cut", "set-body-cut", "message-cut", "fixed-cut", "version-cut"}
@@ -189,7 +359,7 @@ Judge(buf, allow, preO, last, out, postO) ==
   IN [findings |->
         (IF acct = "" THEN {} ELSE {<<"C02", "framing", acct, "">>})
         \cup devF
-        \cup (IF matched THEN ContentFindings(km, out, run.out)
+        \cup (IF matched THEN ContentFindings(km, out, run.out) \cup PostFindings(km, buf, out, run.out)
              ELSE IF ri # 0 THEN {} ELSE Unexplained(km, out, ideal, allow))
         \cup CacheFindings(buf, pre, post, run, matched),
       matched |-> matched, conf |-> conf, dev |-> IF matched \/ ri # 0 THEN run.used ELSE {"?"},
